@@ -1,7 +1,9 @@
 """C02 — System footprint accounts for every component exactly once."""
 import math
 
-from pbt.common import env, runner, snap, fresh as F, spec as S
+from hypothesis import strategies as st
+
+from pbt.common import env, runner, snap, fresh as F, spec as S, gen as G, machine as M
 
 env.import_efootprint()
 
@@ -11,7 +13,7 @@ LEVEL_TEXT = ("generated systems over all sharing topologies, time zones and win
               "summed views recomputed by the harness from the per-object series and compared hour by hour")
 LEVEL_NOTE = "trusts the spec->component-set derivation of the harness and numpy summation"
 RULE = ("Hypothesis draws a system spec (sharing none/infra_only/jobs_too, builders, 1-3 usage patterns in any of 24 "
-        "zones). Oracle on the fresh build: total_footprint(h) = sum over spec-derived servers, storages (energy+"
+        "zones), in 30% of the cases followed by 1-3 edits. Oracle on the (possibly edited) model: total_footprint(h) = sum over spec-derived servers, storages (energy+"
         "fabrication), networks (energy) and usage patterns (energy+fabrication) within the 4-decimal rounding; "
         "energy_footprints / fabrication_footprints hold exactly one entry per spec-derived component; category totals "
         "and *_sum_over_period views equal the sums of the per-object series; all values finite, >= 0 when no job "
@@ -24,13 +26,31 @@ BUDGET = {"quick": dict(examples=40, wall_guard_s=600), "thorough": dict(example
 CATS = ("Servers", "Storage", "Network", "Devices")
 
 
+@st.composite
+def cases(draw):
+    spec = draw(G.specs())
+    hist = draw(G.histories(spec, min_steps=1, max_steps=3)) if draw(st.floats(0, 1)) < 0.3 else []
+    return {"spec": spec, "id_seed": draw(st.integers(0, 2 ** 20)), "history": hist}
+
+
 def check(case, ctx):
     spec = case["spec"]
-    objs, exc = F.build_case(case)
     labels = ["sharing=" + spec.get("sharing", "?")]
-    if objs is None:
-        ctx.case(case, False, labels + ["invalid_initial"])
-        return
+    if case.get("history"):
+        # the accounting identities must also hold on a model reached through edits
+        quiet = type("Q", (), {"violation": lambda self, *a, **k: False})()
+        summary = M.run_history(case, quiet, compare_fresh=False, check_totals=False, check_undo=False)
+        objs = summary.get("live")
+        if objs is None:
+            ctx.case(case, False, labels + ["history_" + summary["status"]])
+            return
+        spec = summary["final_spec"]
+        labels.append("after_history")
+    else:
+        objs, exc = F.build_case(case)
+        if objs is None:
+            ctx.case(case, False, labels + ["invalid_initial"])
+            return
     system = objs["system"]
     comp = F.spec_components(spec)
     problems = []
@@ -172,4 +192,4 @@ def replay(case, ctx):
 
 
 def run_shard(ctx):
-    runner.run_given(ctx, F.spec_cases(), lambda c: check(c, ctx), ctx.budget["examples"])
+    runner.run_given(ctx, cases(), lambda c: check(c, ctx), ctx.budget["examples"])
